@@ -81,7 +81,7 @@ contract('ndef:message_decoder', 'C06', dict(octets=Any(), errors=Any(), known_t
          name='C06/ndef.completeness-probe', assumed=True,
          note='ndeflib: strict decoding fails unless the octets are one complete message',
          requires=[('strict', 'errors == "strict"')],
-         raises={'ndef:DecodeError': []}, returns=Fixed([]))
+         raises={'ndef:DecodeError': [], 'ValueError': []}, returns=Fixed([]))
 contract(HS + 'HandoverServer._process_request_data', 'C06', dict(self=Any(), octets=Any()),
          name='C06/handover.process_request_data', assumed=True,
          note='application upcall (decodes relaxed, answers with a select message); ghost: the octets up to the '
